@@ -253,8 +253,13 @@ func globalsText(r *simrt.RNG, gc *gen.Case) string {
 	for _, kv := range gc.Globals {
 		fmt.Fprintf(&sb, "%s = %s\n", kv.K, kv.V.Literal())
 	}
+	// names that several lines define and refer to: chains, self-references and cycles between globals
+	refNames := []string{"A", "B", "app.C", "A", "B"}
 	for i, n := 0, r.Intn(6); i < n; i++ {
-		switch r.Intn(8) {
+		switch r.Intn(9) {
+		case 8:
+			a, b := refNames[r.Intn(len(refNames))], refNames[r.Intn(len(refNames))]
+			fmt.Fprintf(&sb, "%s = %s\n", a, []string{b, b + " + 1", "[" + b + "]", "['k': " + b + "]", "not " + b}[r.Intn(5)])
 		case 0:
 			fmt.Fprintf(&sb, "X%d = %s\n", i, gen.ChaosExprs[r.Intn(len(gen.ChaosExprs))])
 		case 1:
